@@ -136,7 +136,10 @@ def generate(prop, seed, tier):
             'signatures': g.random() < 0.85, 'conflict': g.random() < 0.12, 'share_objects': g.random() < 0.5,
             'alloc': g.choice(['order', 'seq', 'reuse']), 'prereg1': g.random() < 0.3, 'prereg2': g.random() < 0.3,
             # history: conjoin, remove a terminal edge from a right-hand side of an input grammar, conjoin the same objects again
-            'again': {'which': g.randrange(2), 'rule': g.randrange(64), 'edge': g.randrange(64)} if g.random() < 0.3 else None}
+            'again': {'which': g.randrange(2), 'rule': g.randrange(64), 'edge': g.randrange(64)} if g.random() < 0.3 else None,
+            # the second grammar's start symbol may be another of its nonterminals (possibly of another type than the first
+            # grammar's start: then no pair of derivations has the same shape and the conjunction derives nothing)
+            'start2': (g.choice(sorted(nts2)) if g.random() < 0.15 else 'S')}
 
 
 def reducers(case):
@@ -200,7 +203,7 @@ def build_pair(F, case):
     out = []
     for which, (nts, rules, tag) in enumerate(((case['nts1'], case['rules1'], 'a'), (case['nts2'], case['rules2'], 'b'))):
         labs = {n: F.EdgeLabel(n, [NLo[l] for l in t], is_nonterminal=True) for n, t in nts.items()}
-        h = F.HRG(labs['S'])
+        h = F.HRG(labs[case.get('start2', 'S') if which == 1 else 'S'])
         if case['prereg%d' % (which + 1)]:
             for n in sorted(nts, reverse=True):
                 h.add_edge_label(labs[n])
@@ -317,9 +320,9 @@ def execute(case):
                     name_of[pair] = lab
                     pair_of[lab.name] = pair
                     t1 = case['nts1'][pair[0]]
-                    if [l.name for l in lab.type] != t1:
+                    if [l.name for l in lab.type] != t1 and t1 == case['nts2'][pair[1]]:
                         V('pair-label', ['type'], f'{lab.name} has type {[l.name for l in lab.type]}, {pair[0]} has {t1}')
-                bind(('S', 'S'), res.start, 'start')
+                bind(('S', case.get('start2', 'S')), res.start, 'start')
                 if case['signatures']:
                     bysig = {}
                     for r in rules:
